@@ -786,7 +786,7 @@ def _check_reserved_names(template, names):
         )
 
 
-def _include_file(context, uri, calling_uri, **kwargs):
+def _include_file(context, uri, calling_uri, /, **kwargs):
     """locate the template from the given uri and include it in
     the current output."""
 
@@ -911,7 +911,7 @@ def _kwargs_for_callable(callable_, data):
     return kwargs
 
 
-def _kwargs_for_include(callable_, data, **kwargs):
+def _kwargs_for_include(callable_, data, /, **kwargs):
     argspec = compat.inspect_getargspec(callable_)
     namedargs = argspec[0] + [v for v in argspec[1:3] if v is not None]
     for arg in namedargs:
